@@ -93,6 +93,7 @@ w('raw:read-not-found:CallStatement:enriched:intent-none', AL, D1, 't = 3.\n!$lo
 w('raw:read-not-found:CallStatement:enriched:intent-none:subscript-or-operand-of-actual', AL, D1, 'k = 2\n!$loki x\ncall h(a(k))', A1, **R)
 w('raw:write-not-found:CallStatement:enriched:intent-none', AL, D1, 'call hxy(x, t)\n!$loki x\nb(1) = t', A1, **R)
 w('raw:write-not-found:CallStatement:argument-is-also-subscript-of-another-actual', AL, D1, 'call hk(k, a(k))\n!$loki x\nj = k', A1, **R)
+w('lcd:associate-selector-with-subscripts-not-matched', AL, D1, 'do i = 2, n\n associate (z => a(:))\n  z(i) = real(i)\n end associate\n b(i) = a(i-1)\nend do', A1)
 w('raw:read-not-found:Associate-header', AL, D1, 'k = 2\n!$loki x\nassociate (z => a(k))\n t = z\nend associate', A1, **R)
 w('raw:read-not-found:use-after-may-definition-inside:MultiConditional', AL, D1, 'x = 1.\n!$loki x\nselect case (k)\ncase (2)\n if (n > 5) x = 2.\n t = x\nend select', A1, **R)
 w('raw:read-not-found:use-after-may-definition-inside:MaskedStatement', AL, D1, 'a = 0.5\n!$loki x\nwhere (m)\n a = 1.\nelsewhere (c > 0.)\n c = a\nend where', A1, **R)
